@@ -37,7 +37,7 @@ CLAIMS = {
               'history invariant "every successful Ack event is preceded by a state with no file written-and-not-synced" (acks_sound), "every file holding unsynced data is still tracked" (covered), '
               'established by FlushWorker::new (empty trace, exactly the open chunk file tracked), preserved by sync_all_files (also at its error exit: defect D7, fixed), handle_non_flush_request and every iteration of run_inner for an ARBITRARY next request and batch split; '
               'sender side: send_flush hands over exactly the bytes buffered since the last hand-over with sync=true and the callback, rotation queues the old tail as a synced Write before AppendFile. '
-              'every batch produces exactly one Ack event per request that carries a callback, in request order (ack_ids(trace suffix) == cb_ids(batch)); at-most-once per callback is also Rust move semantics (Callback::send consumes self).'),
+              'a failed write is never skipped over (the batch loop's invariant) and a short write whose byte count is ignored is a failed obligation; every batch produces exactly one Ack event per request that carries a callback, in request order (ack_ids(trace suffix) == cb_ids(batch)); at-most-once per callback is also Rust move semantics (Callback::send consumes self).'),
         note=TRUST + ' Assumed: write_all/sync_data semantics (a successful fdatasync makes all earlier writes to that file durable), FIFO channel, message invariant "every Write has sync == true" (proved on the sender in U5, assumed at recv), rule E7 desugaring of try_iter().take(n) and iter().any(). Liveness (every sent request is eventually processed) is not decided.',
         technique='Verus history invariant over a ghost effect trace, on extracted code',
         design='5 C04',
@@ -62,7 +62,7 @@ CLAIMS = {
     'C07': dict(
         text=('Unbounded deductive proof (Verus) of the cache-pinning half of the property: no PayloadCache method (insert, try_evict, evict_first, drain_evictable, purge_upto) ever drops an entry above the evictable boundary, '
               'for an arbitrary boundary at entry (rely condition standing in for the worker thread); the new entry of an append stays resident if it is above the boundary; carried through RaftLogStateMachine::apply and RaftLog::append_and_apply; '
-              'worker side: the boundary is raised (SetEvictable event) only in a state where every file other than the newest tracked one is clean (evictable_sound, history invariant; base case FlushWorker::new, carried by run/run_inner); the worker is started (RaftLogWAL::new, RaftLog::open) tracking the open chunk file with the last id of the newest CLOSED chunk as its first boundary, and every rotation hands it the state.last of the chunk being closed. '
+              'worker side: the boundary is raised (SetEvictable event) only in a state where every file other than the newest tracked one is clean (evictable_sound, history invariant; base case FlushWorker::new, carried by run/run_inner); the worker is started (RaftLogWAL::new, RaftLog::open) tracking the open chunk file with the last id of the newest CLOSED chunk as its first boundary; while loading, the boundary handed to the cache before chunk i is exactly the last id after chunks < i (loop invariant of open); and every rotation hands it the state.last of the chunk being closed. '
               'read__entry / load_log_payload: an evicted entry is read from the closed chunk its index entry names, an unknown chunk is reported as NotFound (never a panic, given that index entries point at Append records on disk). KNOWN FINDING D8: an accepted TruncateAfter can leave the evictable boundary above `last` (the clause is proved for every other record kind). Not decided: the chain "every non-resident live entry lies in a closed chunk" and the concurrent-readers clause.'),
         note=TRUST + ' Lock sequentialised (E6). The concurrent-readers clause is Rust Sync typing + pread and has no contract.',
         technique='Verus pinning postconditions + history invariant, on extracted code',
@@ -80,7 +80,7 @@ CLAIMS = {
     'C09': dict(
         text=('Unbounded deductive proof (Verus): decision table of handle_record_error (truncate only if enabled AND (UnexpectedEof OR tail all zeros); otherwise the error is returned; never Ok(false)); '
               'Chunk::open stops at the first error and, when it did not truncate, every byte of the file was consumed by successful decodes; RecordIterator::next yields nothing after an error and stops exactly at the file size; '
-              'WALRecord::decode returns Ok only for bytes whose checksum matches (soundness: consumed bytes == enc(record)), unknown tag/version/checksum mismatch are InvalidData; ensure_consecutive_chunks: Err iff gap, called for every chunk. '
+              'WALRecord::decode returns Ok only for bytes whose checksum matches (soundness: consumed bytes == enc(record)), unknown tag/version/checksum mismatch are InvalidData (an unknown RaftLogState version must not be reported as UnexpectedEof, which recovery would treat as an incomplete tail); the stored checksum is read and compared before a record is accepted; ensure_consecutive_chunks: Err iff gap, called for every chunk. '
               'KNOWN FINDING D11: a non-newest chunk may be truncated before the refused open. KNOWN FINDING D12: the truncated tail is not guaranteed to be an incomplete record or zeros (a corrupted length prefix looks like an incomplete tail; inherent to the format).'),
         note=TRUST + ' Assumed: CRC-32 detects the alterations the property ranges over (crc is uninterpreted); codeq/byteorder/user codec contracts.',
         technique='Verus decision-table and loop contracts over a ghost file content, on extracted code',
